@@ -26,7 +26,7 @@ open Outcome
     repeat' split
     all_goals simp_all
 
-@[simp] theorem snsetRead_np (le : Bool) (d : List Nat) : snsetRead le d ≠ .panic := by
+@[simp] theorem snsetRead_np (chk le : Bool) (d : List Nat) : snsetRead chk le d ≠ .panic := by
   unfold snsetRead; repeat' split
   all_goals simp_all
 
@@ -74,13 +74,13 @@ open Outcome
 @[simp] theorem dataFragRead_np (le : Bool) (fl len : Nat) (d : List Nat) : dataFragRead le fl len d ≠ .panic := by
   unfold dataFragRead; repeat' split
   all_goals simp_all
-@[simp] theorem gapRead_np (le : Bool) (d : List Nat) : gapRead le d ≠ .panic := by
+@[simp] theorem gapRead_np (chk le : Bool) (d : List Nat) : gapRead chk le d ≠ .panic := by
   unfold gapRead; repeat' split
   all_goals simp_all
 @[simp] theorem heartbeatRead_np (le : Bool) (fl : Nat) (d : List Nat) : heartbeatRead le fl d ≠ .panic := by
   unfold heartbeatRead; repeat' split
   all_goals simp_all
-@[simp] theorem ackNackRead_np (le : Bool) (fl : Nat) (d : List Nat) : ackNackRead le fl d ≠ .panic := by
+@[simp] theorem ackNackRead_np (chk le : Bool) (fl : Nat) (d : List Nat) : ackNackRead chk le fl d ≠ .panic := by
   unfold ackNackRead; repeat' split
   all_goals simp_all
 @[simp] theorem heartbeatFragRead_np (le : Bool) (d : List Nat) : heartbeatFragRead le d ≠ .panic := by
